@@ -34,6 +34,23 @@ func VH_C01_FrameStep() {
 	if err != nil {
 		vCover("sender-rejects")
 		vAssert(len(sc.outs) == 0, "rejected-frame-emits-nothing")
+		// a refused send is not part of the sequence: the caller carries on (say with
+		// smaller pieces) and the next frame the sender accepts must still arrive
+		n2 := vInt("n2")
+		vAssume(n2 >= 0 && n2 <= 64)
+		d2 := vBlob("d2", n2)
+		if err2 := s.sendMessageWithEnd(vhCtx, d2, end); err2 != nil {
+			return // e.g. the frame counter is exhausted: refused for good
+		}
+		vAssert(len(sc.outs) == 1, "one-write-per-frame")
+		rc.feed(sc.outs[0])
+		out2, flag2, rerr2 := r.ReceiveFrameWithEnd(vhCtx)
+		vAssert(rerr2 == nil, "receiver-accepts-the-frame-after-a-refused-send")
+		if rerr2 == nil {
+			vAssert(flag2 == end, "end-flag-preserved")
+			vAssertBytesEqual(out2, d2, "payload-identical")
+			vCover("roundtrip-after-refusal")
+		}
 		return
 	}
 	vTag("plain_len", n)
